@@ -174,11 +174,47 @@ def make_iter(ds, iface: str, split: str, opts: dict, process_record=None):
         if opts.get("limit") is not None:
             kw["custom_metadata_type_limit"] = opts["limit"]
         kw.pop("process_record", None)
-        tfds = ds.as_tfdataset(batch_size=0, prefetch=1,
+        if opts.get("tf_slow"):
+            kw["process_record"] = slow_tf_identity(ds)
+        batch = opts.get("batch", 0)
+        tfds = ds.as_tfdataset(batch_size=batch, prefetch=1,
                                file_parallelism=opts.get("fp", 2),
                                parallelism=opts.get("fp", 2), **kw)
-        return tfds.as_numpy_iterator()
+        if batch <= 0:
+            return tfds.as_numpy_iterator()
+        return unbatch(tfds.as_numpy_iterator())
     raise ValueError(iface)
+
+
+def unbatch(batches):
+    """Flatten tf.data batches (dicts of stacked arrays) into examples."""
+    for b in batches:
+        n = len(next(iter(b.values())))
+        for i in range(n):
+            yield {name: v[i] for name, v in b.items()}
+
+
+def slow_tf_identity(ds):
+    """A caller-supplied per-example transformation with uneven (real)
+    latency: every third example takes ~15 ms.  tf.data is uncontrolled; the
+    skew gives a parallel map the chance to reorder if it is allowed to."""
+    import numpy as np
+    import tensorflow as tf
+
+    def delay(ident):
+        if int(ident) % 3 == 0:
+            time.sleep(0.015)
+        return np.int64(ident)
+
+    def fn(example):
+        out = dict(example)
+        ident = tf.numpy_function(delay, [tf.cast(example["id"], tf.int64)],
+                                  tf.int64)
+        ident.set_shape(())
+        out["id"] = tf.cast(ident, example["id"].dtype)
+        return out
+
+    return fn
 
 
 def take(iterable, k):
